@@ -77,14 +77,16 @@ type Server struct {
 	// DefaultRecover: Do keeps graphql.DefaultRecover as the recover hook (every panic is then
 	// reported as "internal system error")
 	DefaultRecover bool
-	P              *Project
-	U              *univ.Universe
-	ES             graphql.ExecutableSchema
-	Schema         *ast.Schema
-	Exec           *executor.Executor
-	Stub           any
-	Directives     any
-	Complexity     any
+	// MarkErrors: Do / DoAll install MarkingPresenter as the error presenter
+	MarkErrors bool
+	P          *Project
+	U          *univ.Universe
+	ES         graphql.ExecutableSchema
+	Schema     *ast.Schema
+	Exec       *executor.Executor
+	Stub       any
+	Directives any
+	Complexity any
 }
 
 // DefaultRecoverMsg is what graphql.DefaultRecover answers for every panic.
@@ -103,6 +105,31 @@ func quietDefaultRecover(ctx context.Context, err any) error {
 		defer func() { os.Stderr = old; null.Close() }()
 	}
 	return graphql.DefaultRecover(ctx, err)
+}
+
+// MarkingPresenter is a user error presenter: gqlgen's default one plus an extension entry, so that
+// every error that went through the configured presenter can be told from one that did not.
+func MarkingPresenter(ctx context.Context, err error) *gqlerror.Error {
+	e := graphql.DefaultErrorPresenter(ctx, err)
+	if e.Extensions == nil {
+		e.Extensions = map[string]any{}
+	}
+	e.Extensions["presented"] = true
+	return e
+}
+
+// Presented reports whether the error carries MarkingPresenter's mark.
+func Presented(e *gqlerror.Error) bool {
+	v, _ := e.Extensions["presented"].(bool)
+	return v
+}
+
+func (s *Server) setPresenter(ex *executor.Executor) {
+	if s.MarkErrors {
+		ex.SetErrorPresenter(MarkingPresenter)
+	} else {
+		ex.SetErrorPresenter(graphql.DefaultErrorPresenter)
+	}
 }
 
 // RecoverMsg is the error message the harness recover hook produces for a panic value.
@@ -160,6 +187,7 @@ func (s *Server) Do(ctx context.Context, e *univ.Exec, query, opName string, var
 	s.U.SetExec(e)
 	var recovers atomic.Int64
 	ex := s.Exec
+	s.setPresenter(ex)
 	ex.SetRecoverFunc(func(ctx context.Context, err any) error {
 		recovers.Add(1)
 		return gqlerror.Errorf("%s", RecoverMsg(err))
@@ -191,6 +219,7 @@ func (s *Server) DoAll(ctx context.Context, e *univ.Exec, query, opName string, 
 	s.U.SetExec(e)
 	var recovers atomic.Int64
 	ex := s.Exec
+	s.setPresenter(ex)
 	ex.SetRecoverFunc(func(ctx context.Context, err any) error {
 		recovers.Add(1)
 		return gqlerror.Errorf("%s", RecoverMsg(err))
